@@ -268,18 +268,28 @@ def r_order(model, rep):
             if problems or sequence_sinks(v) or (v[0] == "call" and v[1] == ("global", "sorted")):
                 rep.ob("R-ORDER", key, not problems, site=cx.site(e.ev.lineno), msg="; ".join(problems),
                        facts={"value": T.show(v)[:120], "order": k})
-    # list sinks filled through nested writers: Images.serialize
+    n_sites += r_cell_order(model, rep)
+    if n_sites < 6:
+        raise AnalysisError("vacuity guard: R-ORDER examined %d order-sensitive sites (floor 6)" % n_sites)
+    rep.count("order_sensitive_sites", n_sites)
+    # loops whose body emits keyed entries are order-insensitive *because* the containers are sorted on output: R-JSONCFG/R-INICFG
+
+
+def r_cell_order(model, rep, rule_id="R-ORDER"):
+    """list sinks filled through nested writers (Images.serialize): each (variant, arch) cell, a set of Image objects, is
+    written as a list sorted by path -- the only key the quantifier guarantees to be distinct within a cell"""
     f = model.own_method("images.Images", "serialize")
     cx, emits = facts.writer_emits(model, f)
     oc = OrderCtx(model, cx)
     nested = [e for e in emits if e.kind == "nested" and e.loops]
+    n = 0
     for e in nested:
         unordered_loops = [l for l in e.loops if oc.kind(l[1]) == UNORDERED]
         # which of these loops decide positions inside one output *list*?  the callee appends to the list passed in
         lst = e.ev.value[2][0] if e.ev.value[2] else None
         sorts = [ev for ev in cx.events if ev.kind == "call" and ev.value[1] == ("attr", lst, "sort") and not T.guard_tests(ev)]
         ok, msg = True, ""
-        n_sites += 1
+        n += 1
         if unordered_loops:
             if not sorts:
                 ok, msg = False, "images are appended in the iteration order of a set and the list is never sorted"
@@ -294,11 +304,8 @@ def r_order(model, rep):
                     ok, msg = False, "cells must be sorted by the image path (distinct per cell): key=%s" % (T.show(key) if key else None)
                 elif dict(s.value[3]).get("reverse") not in (None, ("const", False)):
                     pass
-        rep.ob("R-ORDER", "images.Images.serialize:cell-list", ok, site=cx.site(e.ev.lineno), msg=msg)
-    if n_sites < 6:
-        raise AnalysisError("vacuity guard: R-ORDER examined %d order-sensitive sites (floor 6)" % n_sites)
-    rep.count("order_sensitive_sites", n_sites)
-    # loops whose body emits keyed entries are order-insensitive *because* the containers are sorted on output: R-JSONCFG/R-INICFG
+        rep.ob(rule_id, "images.Images.serialize:cell-list", ok, site=cx.site(e.ev.lineno), msg=msg)
+    return n
 
 
 def r_builder_order(model, rep):
